@@ -78,8 +78,8 @@ func (m *Mesh) AddNode(id string, k Knobs) *Node {
 // Start creates a new incarnation of the node (new epoch).
 func (n *Node) Start() {
 	n.mu.Lock()
-	defer n.mu.Unlock()
 	if n.up {
+		n.mu.Unlock()
 		return
 	}
 	ctx, cancel := context.WithCancel(context.Background())
@@ -89,6 +89,10 @@ func (n *Node) Start() {
 	n.inc++
 	n.up = true
 	n.W.Event("node %s start inc %d", n.ID, n.inc)
+	n.mu.Unlock()
+	// the node's background goroutines reach their first wait before anything is asked of it (a nudge sent to a
+	// tick runner that has not started listening is dropped), and no two nodes share their timer instants
+	time.Sleep(time.Duration(3+H(n.W.Seed, "node-start", n.ID)%97) * time.Microsecond)
 }
 
 // Stop shuts the node down; its sessions are closed by the protocol goroutines.
@@ -170,6 +174,9 @@ func (m *Mesh) Up(l *Link) error {
 	if l.Up() {
 		return nil
 	}
+	// no two sessions of a node start in the same instant (their initial messages would draw sequence numbers
+	// in an order the simulator does not decide)
+	time.Sleep(time.Duration(1+H(m.W.Seed, "link-up", l.Name)%199) * time.Microsecond)
 	ea := na.endFor(l, 0, 0, nil)
 	eb := nb.endFor(l, 1, 0, nil)
 	if l.Cfg.Framed {
@@ -221,6 +228,7 @@ func (n *Node) attachStream(e *nodeEnd, c *Conn) error {
 		n.mu.Unlock()
 	}
 	ext := e.ext
+	c.CanonTies = true
 	go ext.NewConnection(netceptor.MessageConnFromNetConn(c), true)
 	return nil
 }
